@@ -32,7 +32,7 @@ def flag_term(flag):
 
 
 @rule("C13-H1", "C13", 16, "Drop impls: dealloc at most once per path, with (allocated.memory_offset, allocated.memory_size), never on a detached path, and "
-      "reached on every non-detached path of a handle that owns memory; drop_in_place at most once and never when detached", also=("C01",))
+      "reached on every non-detached path of a handle that owns memory; drop_in_place at most once and never when detached", also=("C01", ("C02", "!unsync"), "C10", "C20"))
 def h1(ctx):
     for hname, (pat, flag) in DROPS.items():
         b = ctx.facts.one(pat)
